@@ -41,3 +41,15 @@ Definition col (s : store) (t : tloc) (f : fid) : option (list Z) :=
   | None => None
   | Some x => match lookup f (tf x) with None => None | Some b => nth_error (sb s) b end
   end.
+
+(* table t of store s was created after s0 and all its columns are arrays created after s0 *)
+Definition fresh_table (s0 s : store) (t : tloc) : Prop :=
+  (length (st s0) <= t)%nat /\
+  forall x, nth_error (st s) t = Some x ->
+            Forall (fun p => (length (sb s0) <= snd p)%nat) (tf x).
+
+(* two table objects that are different and share no column array *)
+Definition disjoint_tables (s : store) (t u : tloc) : Prop :=
+  t <> u /\
+  forall x y, nth_error (st s) t = Some x -> nth_error (st s) u = Some y ->
+              forall p q, In p (tf x) -> In q (tf y) -> snd p <> snd q.
